@@ -1,4 +1,4 @@
-/* recorded: L'x' is typed unsigned int although c2m's own <stddef.h> defines wchar_t as int
+/* known finding prog:corpus:c07_prog_wchar_const.c: L'x' is typed unsigned int although c2m's own <stddef.h> defines wchar_t as int
    (C11 6.4.4.4p11: a wide character constant prefixed by L has type wchar_t) */
 #include <stdio.h>
 #include <stddef.h>
